@@ -1,5 +1,6 @@
 \* exhaustive: lengths 1..6, F 1..4, limits {0,1,2,5}, proportions {0,1/4,1/2,3/4,1}, counts {0,1,2,3},
-\* max warps {0, 0.5, 1, 1.5, 2.5, 10} frames; applications on T <= 4, F <= 3 with <= 2 masks per axis
+\* max warps {0, 0.5, 1, 1.5, 2.5, 10} frames; applications on T <= 4, F <= 3 with <= 2 masks per axis;
+\* resampler reads of a 2 x 2 plane with cells in {-3, -2, 0, 5} at every position in fifths of a cell from -1 to 2
 INIT Init
 NEXT Next
 CONSTANTS
@@ -12,11 +13,15 @@ CONSTANTS
   ApplyT = 4
   ApplyF = 3
   ApplyMasks = 2
+  HullVals = {0, 1, 3, 8}
+  HullOff = 3
+  HullDen = 5
 INVARIANT TimeDrawInBounds
 INVARIANT FreqDrawInBounds
 INVARIANT WarpDrawInBounds
 INVARIANT Tight
 INVARIANT ApplyIsMasked
 INVARIANT GridAbstraction
+INVARIANT HullAbstraction
 INVARIANT Export
 CHECK_DEADLOCK FALSE
